@@ -368,6 +368,18 @@ func (r *runner) plain(c Cmd, where string) *mon.Result {
 	if log[ws[1]].Delivered < log[ws[1]].Generated {
 		r.obs["plain_return_before_echo_delivered"]++
 	}
+	if _, blanks := splitBlanks(c.Text); blanks != "" && !c.EchoStall {
+		r.obs["plain_commands_ending_in_blanks"]++
+		// did a read boundary separate the blanks from what precedes them?
+		cut := rc.Generated - len(blanks)
+		for i := ws[0]; i < ws[1]; i++ {
+			if log[i].Kind == "read" && log[i].Delivered >= cut && log[i].Delivered < rc.Generated {
+				r.obs["plain_commands_trailing_blanks_in_a_later_read"]++
+				break
+			}
+		}
+		r.tag("input-ends-in-blanks")
+	}
 	if strings.Contains(c.Text, "\n") {
 		r.obs["multi_line_commands"]++
 		if r.d.Exact {
@@ -489,6 +501,9 @@ func (r *runner) checkDialogue(log []devsim.Event, ws []int, stream string, evs 
 				where, k, clip(stream[s0:end]))
 		}
 		mp[k] = s0 + p
+		if evs[k].Loose && k < sent-1 {
+			r.obs["prompt_like_line_ahead_of_expected_response"]++
+		}
 		if evs[k].LongOut {
 			r.obs["responses_over_depth_with_prompt_like_line_tails"]++
 			if r.d.Seg.Mode == "fixed" && r.d.Seg.Size == 1 {
@@ -590,9 +605,23 @@ func compPatterns(d *Desc) []*regexp.Regexp {
 	if d.Complete == "" {
 		return nil
 	}
-	c := []*regexp.Regexp{regexp.MustCompile(d.CompRe)}
-	if d.CompRe2 != "" {
-		c = append(c, regexp.MustCompile(d.CompRe2))
+	var c []*regexp.Regexp
+	for _, p := range d.compStrings() {
+		c = append(c, regexp.MustCompile(p))
+	}
+	return c[:len(c):len(c)]
+}
+
+// callerPatterns builds the slice the caller hands to WithCompletePatterns: a literal (cap == len)
+// or, with CompCap > 0, a slice with spare capacity as append in a loop / make(.., 0, n) leave it.
+func callerPatterns(d *Desc) []*regexp.Regexp {
+	if d.Complete == "" {
+		return nil
+	}
+	ps := d.compStrings()
+	c := make([]*regexp.Regexp, 0, len(ps)+d.CompCap)
+	for _, p := range ps {
+		c = append(c, regexp.MustCompile(p))
 	}
 	return c
 }
@@ -646,6 +675,10 @@ func (r *runner) opOptions(d *Desc, callerComp []*regexp.Regexp) []util.Option {
 	var opo []util.Option
 	if d.Complete != "" {
 		opo = append(opo, opoptions.WithCompletePatterns(callerComp))
+		r.tag(fmt.Sprintf("complete-patterns=len%d/cap+%d", len(callerComp), cap(callerComp)-len(callerComp)))
+		if cap(callerComp) > len(callerComp) {
+			r.obs["complete_pattern_slices_with_spare_capacity"]++
+		}
 	}
 	if d.Exact {
 		opo = append(opo, opoptions.WithExactMatchInput())
@@ -802,7 +835,7 @@ func RunDialogue(d Desc) mon.Result {
 		return *v
 	}
 	defer r.close()
-	v, nontrivial := r.runOp(&d, compPatterns(&d))
+	v, nontrivial := r.runOp(&d, callerPatterns(&d))
 	if v != nil {
 		return *v
 	}
@@ -830,7 +863,7 @@ func RunShared(d Desc) mon.Result {
 		v := r.openDialogueSession(o)
 		if v == nil {
 			r.sharedEvs = shared
-			v, _ = r.runOp(&o, compPatterns(&o))
+			v, _ = r.runOp(&o, callerPatterns(&o))
 			r.close()
 		}
 		r.conn.Abandon()
@@ -877,7 +910,7 @@ func RunMulti(d Desc) mon.Result {
 	defer r.close()
 	with := d
 	with.Complete = "text"
-	caller := compPatterns(&with) // defined once by the caller, handed to every operation that uses patterns
+	caller := callerPatterns(&with) // defined once by the caller, handed to every operation that uses patterns
 	var want []string
 	for _, p := range caller {
 		want = append(want, p.String())
